@@ -73,6 +73,7 @@ STR_BODIES = ["", "a", "hello world", "two\nlines", "esc\\n\\t", "q\\\"q", "back
               "semi;colon", "paren)(", "brace"]
 F_LITERALS = ["", "a", "x y", "{{", "}}", "a{{b}}c", "nl\n", "tab\\t"]
 DELIMS = ["", "x", "==", "f-x", "doc"]
+_OPEN_BDELIMS = []
 
 
 def gen_form(rng, depth, in_f=False, optional=False):
@@ -111,7 +112,18 @@ def gen_form(rng, depth, in_f=False, optional=False):
     if r < 0.86:
         return ["fstr", rng.choice(["f", "f", "rf"]) if not in_f else "f", gen_fparts(rng, depth - 1), None]
     if r < 0.9:
-        return ["fstr", "bracket", gen_fparts(rng, depth - 1), rng.choice(["f", "f-x"])]
+        # a bracket f-string is first read verbatim up to its closer, so nothing inside it (at any depth) may be
+        # a bracket f-string with the same delimiter
+        bd = rng.choice(["f", "f-x"])
+        if bd in _OPEN_BDELIMS:
+            bd = "f-x" if bd == "f" else "f"
+        if bd in _OPEN_BDELIMS:
+            return ["fstr", "f", gen_fparts(rng, depth - 1), None]
+        _OPEN_BDELIMS.append(bd)
+        try:
+            return ["fstr", "bracket", gen_fparts(rng, depth - 1), bd]
+        finally:
+            _OPEN_BDELIMS.pop()
     p = rng.choice(["'", "'", "`", "~", "~@", "#*", "#**", "#^"] + (["#_", "#_"] if optional else []))
     if p == "#^":
         return ["prefix", p, [gen_form(rng, 0), gen_form(rng, depth - 1, in_f)], rng.choice([" ", "  "])]
